@@ -30,6 +30,18 @@ def enc(kind, data, level=6):
         raw = c.compress(data) + c.flush()
         return (b"\x1f\x8b\x08\x08\x00\x00\x00\x00\x00\x03" + b"name.txt\x00" + raw +
                 struct.pack("<II", zlib.crc32(data) & 0xffffffff, len(data) & 0xffffffff))
+    if kind in ("gziptext", "gziphcrc", "gzipextra", "gzipcomment"):     # the other header flags the restart probe looks at
+        c = zlib.compressobj(level, zlib.DEFLATED, -15)
+        raw = c.compress(data) + c.flush()
+        flg = {"gziptext": 1, "gziphcrc": 2, "gzipextra": 4, "gzipcomment": 16}[kind]
+        h = b"\x1f\x8b\x08" + bytes([flg]) + b"\x00\x00\x00\x00\x00\x03"
+        if flg == 4:
+            h += b"\x03\x00abc"
+        if flg == 16:
+            h += b"a comment\x00"
+        if flg == 2:
+            h += struct.pack("<H", zlib.crc32(h) & 0xffff)
+        return h + raw + struct.pack("<II", zlib.crc32(data) & 0xffffffff, len(data) & 0xffffffff)
     if kind == "raw":
         c = zlib.compressobj(level, zlib.DEFLATED, -15)
         return c.compress(data) + c.flush()
@@ -47,7 +59,7 @@ def enc(kind, data, level=6):
 
 def dec(kind, data):
     """Reference decoder (python's zlib/lzma) used only to state what one unwrapping of a VALID stream is."""
-    if kind in ("gzip", "gzipname"):
+    if kind.startswith("gzip"):
         return zlib.decompress(data, 31)
     if kind == "raw":
         return zlib.decompress(data, -15)
@@ -59,6 +71,7 @@ def dec(kind, data):
 
 
 # token -> the data format for which the library's first attempt (no restart) is the right decoder
+NATIVE_ALSO = {("gzip", "gzipname"), ("gzip", "gziphcrc"), ("gzip", "gzipextra"), ("gzip", "gziptext"), ("gzip", "gzipcomment")}
 NATIVE = {"gzip": "gzip", "x-gzip": "gzip", "deflate": "raw", "x-deflate": "raw", "lzma": "lzma", "GZip": "gzip", "DEFLATE": "raw"}
 
 
@@ -161,7 +174,7 @@ def add_cases(cases, metas, ctx, name, payload, tokens, actual, cfg, framings=("
     r = ctx.rng
     body = wrap_layers(payload, actual)
     ce = ce_raw if ce_raw is not None else (ce_sep.join(t.encode() for t in tokens) if tokens is not None else None)
-    native = tokens is not None and len(tokens) == len(actual) and all(NATIVE.get(t) == a for t, a in zip(tokens, actual))
+    native = tokens is not None and len(tokens) == len(actual) and all(NATIVE.get(t) == a or (t, a) in NATIVE_ALSO for t, a in zip(tokens, actual))
     for fr in framings:
         head, framed = frame(body, fr, ce, r)
         for cname, chunks in chunkings(head, framed, r, **chk):
@@ -178,7 +191,7 @@ def generate(ctx):
     ps = payloads(ctx)
     # 1. valid streams for the announced coding: faithfulness premise
     singles = [(["gzip"], ["gzip"]), (["x-gzip"], ["gzip"]), (["deflate"], ["raw"]), (["x-deflate"], ["raw"]), (["lzma"], ["lzma"]),
-               (["gzip"], ["gzipname"])]
+               (["gzip"], ["gzipname"]), (["gzip"], ["gziphcrc"]), (["gzip"], ["gzipextra"])]
     for pname, p in ps:
         for tokens, actual in singles:
             fr = ("cl", "chunked", "close") if (len(p) <= 3000 or th) else ("cl",)
@@ -213,6 +226,7 @@ def generate(ctx):
     add_cases(cases, metas, ctx, "disabled", p[:300], ["gzip"], ["gzip"], dict(big, decomp=0), framings=("cl",), single_cut_limit=0, n_random=1)
     # 4. announced coding does not match the data: the restart paths
     mism = [(["deflate"], ["zlib"]), (["gzip"], ["raw"]), (["gzip"], ["zlib"]), (["deflate"], ["gzip"]), (["deflate"], ["gzipname"]),
+            (["deflate"], ["gziptext"]), (["deflate"], ["gziphcrc"]), (["deflate"], ["gzipextra"]), (["deflate"], ["gzipcomment"]),
             (["gzip"], ["ident"]), (["deflate"], ["ident"]), (["lzma"], ["ident"]), (["lzma"], ["gzip"]), (["gzip"], ["lzma"]),
             (["lzma"], ["lzmabig"]), (["gzip", "gzip"], ["gzip", "ident"]), (["gzip", "gzip"], ["ident"]), (["gzip", "deflate"], ["gzip", "zlib"])]
     for pname, p in ps:
@@ -390,7 +404,8 @@ def unwrap(meta, layers):
     return data
 
 
-DECODABLE = {("deflate", "zlib"), ("gzip", "raw"), ("gzip", "zlib"), ("deflate", "gzip"), ("deflate", "gzipname"), ("x-deflate", "zlib")}
+DECODABLE = {("deflate", "zlib"), ("gzip", "raw"), ("gzip", "zlib"), ("deflate", "gzip"), ("deflate", "gzipname"), ("x-deflate", "zlib"),
+             ("deflate", "gziptext"), ("deflate", "gziphcrc"), ("deflate", "gzipcomment")}
 
 
 def oracle(meta, ob, ex, mex):
